@@ -285,6 +285,428 @@ theorem matchF_zero_width (c : Cx α)
           split at heq <;> simp at heq
         | abort ab => simp at heq
 
+/-! ## first-set soundness: a match that makes progress starts with a token of `First` -/
+
+/-- A first-set element accepts a token. -/
+def FI.accepts (fi : FI) (t : Tok) : Bool :=
+  match fi with
+  | .tok k => t.kind == k
+  | .lit k l => t.kind == k && t.lit == l
+
+/-- The outcome consumed at least one token (successfully, or before failing). -/
+def Progress {β : Type} (r : Res β) : Prop :=
+  (∃ n v, r = .ok n v ∧ 0 < n) ∨ (∃ n e, r = .fail n e ∧ 0 < n)
+
+/-- The token at `i` is accepted by an element of `fs`. -/
+def Starts (c : Cx α) (i : Nat) (fs : List FI) : Prop :=
+  ∃ t, c.toks[i]? = some t ∧ ∃ fi ∈ fs, fi.accepts t = true
+
+theorem Starts.mono {c : Cx α} {i : Nat} {fs fs' : List FI} (h : Starts c i fs) (hsub : ∀ x ∈ fs, x ∈ fs') :
+    Starts c i fs' := by
+  obtain ⟨t, ht, fi, hfi, hacc⟩ := h
+  exact ⟨t, ht, fi, hsub fi hfi, hacc⟩
+
+theorem firstChoice_sub (mf : G → FRes) : ∀ (opts : List G) (fs : List FI) (me : Bool),
+    firstChoice mf opts = .ok fs me →
+    ∀ g ∈ opts, ∃ f1 me1, mf g = .ok f1 me1 ∧ ∀ x ∈ f1, x ∈ fs := by
+  intro opts
+  induction opts with
+  | nil => intro fs me _ g hg; simp at hg
+  | cons a rest ih =>
+    intro fs me heq g hg
+    cases hm : mf a with
+    | ok f1 me1 =>
+      cases hr : firstChoice mf rest with
+      | ok f2 me2 =>
+        simp only [firstChoice, hm, hr, FRes.ok.injEq] at heq
+        simp only [List.mem_cons] at hg
+        rcases hg with rfl | hg
+        · exact ⟨f1, me1, hm, fun x hx => by rw [← heq.1]; simp [hx]⟩
+        · obtain ⟨f3, me3, h3, h4⟩ := ih f2 me2 hr g hg
+          exact ⟨f3, me3, h3, fun x hx => by rw [← heq.1]; simp [h4 x hx]⟩
+      | recur n => simp [firstChoice, hm, hr] at heq
+      | fuel => simp [firstChoice, hm, hr] at heq
+    | recur n => simp [firstChoice, hm] at heq
+    | fuel => simp [firstChoice, hm] at heq
+
+/-- A failing choice reports its initial `nMax` or the count of one of its options. -/
+theorem choiceLoop_fail (m : G → Out (V α)) : ∀ (opts : List G) stops nMax errMax multi n e l,
+    choiceLoop m opts stops nMax errMax multi = (.fail n e, l) →
+    n = nMax ∨ ∃ g ∈ opts, ∃ e' l', m g = (.fail n e', l') := by
+  intro opts
+  induction opts with
+  | nil =>
+    intro stops nMax errMax multi n e l h
+    simp only [choiceLoop, Prod.mk.injEq, Res.fail.injEq] at h
+    exact Or.inl h.1.1.symm
+  | cons g gs ih =>
+    intro stops nMax errMax multi n e l h
+    rcases hm : m g with ⟨r1, l1⟩
+    cases r1 with
+    | ok n1 v1 => simp [choiceLoop, hm] at h
+    | abort a => simp [choiceLoop, hm] at h
+    | fail n1 e1 =>
+      simp only [choiceLoop, hm] at h
+      have hrest : ∀ st, (choiceLoop m gs st (choiceUpd nMax errMax multi n1 e1).1
+          (choiceUpd nMax errMax multi n1 e1).2.1 (choiceUpd nMax errMax multi n1 e1).2.2).1 = .fail n e →
+          n = nMax ∨ ∃ g' ∈ g :: gs, ∃ e' l', m g' = (.fail n e', l') := by
+        intro st hr
+        rcases hc : choiceLoop m gs st (choiceUpd nMax errMax multi n1 e1).1
+          (choiceUpd nMax errMax multi n1 e1).2.1 (choiceUpd nMax errMax multi n1 e1).2.2 with ⟨r2, l2⟩
+        rw [hc] at hr
+        simp only at hr
+        subst hr
+        rcases ih _ _ _ _ _ _ _ hc with h1 | ⟨g', hg', e', l', hm'⟩
+        · unfold choiceUpd at h1
+          split at h1
+          · split at h1
+            · exact Or.inl h1
+            · exact Or.inr ⟨g, by simp, e1, l1, by rw [hm, h1]⟩
+          · exact Or.inl h1
+        · exact Or.inr ⟨g', by simp [hg'], e', l', hm'⟩
+      by_cases hn : n1 > 0
+      · simp only [hn, if_true] at h
+        cases stops with
+        | nil => simp at h
+        | cons s st =>
+          cases s with
+          | true =>
+            simp only [if_true, Prod.mk.injEq, Res.fail.injEq] at h
+            exact Or.inr ⟨g, by simp, e1, l1, by rw [hm, h.1.1]⟩
+          | false =>
+            simp only [Bool.false_eq_true, if_false, Prod.mk.injEq] at h
+            exact hrest _ h.1
+      · simp only [hn, if_false, Prod.mk.injEq] at h
+        exact hrest _ h.1
+
+theorem mapOut_progress {β γ : Type} (f : β → γ) (o : Out β) :
+    Progress (mapOut f o).1 ↔ Progress o.1 := by
+  rcases o with ⟨r, l⟩
+  cases r with
+  | ok n v =>
+    simp only [mapOut, Progress]
+    constructor
+    · rintro (⟨n', v', h, hp⟩ | ⟨n', e', h, _⟩)
+      · simp only [Res.ok.injEq] at h; exact Or.inl ⟨n, v, rfl, by omega⟩
+      · cases h
+    · rintro (⟨n', v', h, hp⟩ | ⟨n', e', h, _⟩)
+      · simp only [Res.ok.injEq] at h; exact Or.inl ⟨n, f v, rfl, by omega⟩
+      · cases h
+  | fail n e => simp [mapOut, Progress]
+  | abort a => simp [mapOut, Progress]
+
+/-- Progress of a sequence comes from an item that `firstSeq` visits. -/
+theorem seqLoop_progress (c : Cx α) (m : G → Nat → Out (V α)) (mf : G → FRes) (p : Nat) :
+    ∀ (items : List G),
+    (∀ g ∈ items, ∀ r l, m g p = (.ok 0 r, l) → ∀ fs me, mf g = .ok fs me → me = true) →
+    (∀ g ∈ items, Progress (m g p).1 → ∀ fs me, mf g = .ok fs me → Starts c p fs) →
+    Progress (seqLoop m items p).1 →
+    ∀ fs me, firstSeq mf items = .ok fs me → Starts c p fs := by
+  intro items
+  induction items with
+  | nil =>
+    intro _ _ hp
+    simp [seqLoop, Progress] at hp
+  | cons g gs ih =>
+    intro hzero hstart hp fs me hfs
+    obtain ⟨f1, me1, hmf, hcase⟩ := firstSeq_cons mf g gs fs me hfs
+    have hsub1 : ∀ x ∈ f1, x ∈ fs := by
+      cases me1 with
+      | false =>
+        simp only [firstSeq, hmf, Bool.false_eq_true, if_false, FRes.ok.injEq] at hfs
+        intro x hx; rw [← hfs.1]; exact hx
+      | true =>
+        cases gs with
+        | nil =>
+          simp only [firstSeq, hmf, if_true, FRes.ok.injEq] at hfs
+          intro x hx; rw [← hfs.1]; exact hx
+        | cons g2 rest =>
+          rcases hcase with ⟨h1, _⟩ | ⟨_, h2, _⟩ | ⟨_, _, f2, h4⟩
+          · cases h1
+          · cases h2
+          · simp only [firstSeq, hmf, if_true] at hfs
+            simp only [firstSeq] at h4
+            simp only [h4, FRes.ok.injEq] at hfs
+            intro x hx; rw [← hfs.1]; simp [hx]
+    rcases hm : m g p with ⟨r1, l1⟩
+    cases r1 with
+    | ok n1 v1 =>
+      by_cases hn : n1 = 0
+      · subst hn
+        have hme1 : me1 = true := hzero g (by simp) v1 l1 hm f1 me1 hmf
+        -- progress comes from the rest, at the same position
+        have hp2 : Progress (seqLoop m gs p).1 := by
+          simp only [seqLoop, hm, Nat.add_zero] at hp
+          rcases hr : seqLoop m gs p with ⟨r2, l2⟩
+          rw [hr] at hp
+          cases r2 with
+          | ok n2 rs2 =>
+            rcases hp with ⟨n', v', h, hpos⟩ | ⟨n', e', h, _⟩
+            · simp only [Res.ok.injEq] at h
+              exact Or.inl ⟨n2, rs2, rfl, by omega⟩
+            · cases h
+          | fail n2 e2 =>
+            rcases hp with ⟨n', v', h, _⟩ | ⟨n', e', h, hpos⟩
+            · cases h
+            · simp only [Res.fail.injEq] at h
+              exact Or.inr ⟨n2, e2, rfl, by omega⟩
+          | abort a => simp [Progress] at hp
+        rcases hcase with ⟨h1, _⟩ | ⟨_, hnil, _⟩ | ⟨_, _, f2, h4⟩
+        · rw [hme1] at h1; cases h1
+        · subst hnil; simp [seqLoop, Progress] at hp2
+        · have hsub2 : ∀ x ∈ f2, x ∈ fs := by
+            cases gs with
+            | nil => simp [seqLoop, Progress] at hp2
+            | cons g2 rest =>
+              simp only [firstSeq, hmf, hme1, if_true] at hfs
+              simp only [firstSeq] at h4
+              simp only [h4, FRes.ok.injEq] at hfs
+              intro x hx; rw [← hfs.1]; simp [hx]
+          exact (ih (fun g' hg' => hzero g' (by simp [hg'])) (fun g' hg' => hstart g' (by simp [hg']))
+            hp2 f2 me h4).mono hsub2
+      · have : Progress (m g p).1 := by rw [hm]; exact Or.inl ⟨n1, v1, rfl, by omega⟩
+        exact (hstart g (by simp) this f1 me1 hmf).mono hsub1
+    | fail n1 e1 =>
+      simp only [seqLoop, hm] at hp
+      have : Progress (m g p).1 := by
+        rw [hm]
+        rcases hp with ⟨n', v', h, _⟩ | ⟨n', e', h, hpos⟩
+        · cases h
+        · simp only [Res.fail.injEq] at h
+          exact Or.inr ⟨n1, e1, rfl, by omega⟩
+      exact (hstart g (by simp) this f1 me1 hmf).mono hsub1
+    | abort a => simp [seqLoop, hm, Progress] at hp
+
+/-- If the loop of `*R` consumes anything, its first iteration does. -/
+theorem repLoop_progress (m : Nat → Out (V α)) (N : Nat) : ∀ (k p : Nat),
+    Progress (repLoop m N k p).1 → Progress (m p).1 := by
+  intro k
+  cases k with
+  | zero => intro p h; simp [repLoop, Progress] at h
+  | succ k =>
+    intro p h
+    rcases hm : m p with ⟨r1, l1⟩
+    cases r1 with
+    | ok n1 v1 =>
+      by_cases hn : n1 = 0
+      · simp [repLoop, hm, hn, Progress] at h
+      · exact Or.inl ⟨n1, v1, rfl, by omega⟩
+    | fail n1 e1 => simp [repLoop, hm, Progress] at h
+    | abort a => simp [repLoop, hm, Progress] at h
+
+theorem repLoop_zero_first (m : Nat → Out (V α)) (N : Nat) (p : Nat) (v : V α) (l : Log)
+    (hm : m p = (.ok 0 v, l)) : ∀ k, ¬ Progress (repLoop m N k p).1 := by
+  intro k
+  cases k with
+  | zero => simp [repLoop, Progress]
+  | succ k => simp [repLoop, hm, Progress]
+
+/-- **First-set soundness.**  If `g` consumes at least one token at position `i` (whether it
+then succeeds or fails), the token at `i` is accepted by an element of `g.First`. -/
+theorem matchF_first_sound (c : Cx α)
+    (henv : ∀ x b, c.env.find x = some b → b.wf c.env = true) :
+    ∀ f g i, g.wf c.env = true → Progress (matchF c f g i).1 →
+      ∀ f' env' fs me, SubEnv env' c.env → firstF f' env' g = .ok fs me → Starts c i fs := by
+  intro f
+  induction f with
+  | zero => intro g i _ hp; simp [matchF_zero, Progress] at hp
+  | succ f ih =>
+    intro g i hwf hp f' env' fs me hsub hfs
+    cases f' with
+    | zero => simp [firstF_zero] at hfs
+    | succ f' =>
+    cases g with
+    | tru => simp [matchF, Progress] at hp
+    | ws =>
+      simp only [matchF] at hp
+      repeat' split at hp
+      all_goals simp [Progress] at hp
+    | str q =>
+      simp only [matchF] at hp
+      cases ht : c.toks[i]? with
+      | none => simp [ht, Progress] at hp
+      | some t =>
+        simp only [ht] at hp
+        by_cases hk : t.kind = tokSTRING
+        · simp only [firstF, FRes.ok.injEq] at hfs
+          exact ⟨t, ht, .tok tokSTRING, by rw [← hfs.1]; simp, by simp [FI.accepts, hk]⟩
+        · simp [hk, Progress] at hp
+    | tok k label =>
+      simp only [matchF] at hp
+      cases ht : c.toks[i]? with
+      | none => simp [ht, Progress] at hp
+      | some t =>
+        simp only [ht] at hp
+        by_cases hk : t.kind = k
+        · simp only [firstF, FRes.ok.injEq] at hfs
+          exact ⟨t, ht, .tok k, by rw [← hfs.1]; simp, by simp [FI.accepts, hk]⟩
+        · simp [hk, Progress] at hp
+    | lit k lt =>
+      simp only [matchF] at hp
+      cases ht : c.toks[i]? with
+      | none => simp [ht, Progress] at hp
+      | some t =>
+        simp only [ht] at hp
+        by_cases hk : t.kind = k ∧ t.lit = lt
+        · simp only [firstF, FRes.ok.injEq] at hfs
+          exact ⟨t, ht, .lit k lt, by rw [← hfs.1]; simp, by simp [FI.accepts, hk.1, hk.2]⟩
+        · have : t.kind ≠ k ∨ t.lit ≠ lt := by
+            by_cases h1 : t.kind = k
+            · right; intro h2; exact hk ⟨h1, h2⟩
+            · left; exact h1
+          simp [this, Progress] at hp
+    | choice opts stops =>
+      rw [matchF_choice] at hp
+      rw [firstF_choice] at hfs
+      rw [wf_choice] at hwf
+      rcases hr : choiceLoop (fun g => matchF c f g i) opts stops (-1) .multi true with ⟨r, l⟩
+      rw [hr] at hp
+      have hopt : ∃ g ∈ opts, Progress (matchF c f g i).1 := by
+        rcases hp with ⟨n, v, h, hpos⟩ | ⟨n, e, h, hpos⟩
+        · simp only at h; subst h
+          obtain ⟨g, hg, l', hm⟩ := choiceLoop_ok _ _ _ _ _ _ _ _ _ hr
+          exact ⟨g, hg, by rw [hm]; exact Or.inl ⟨n, v, rfl, hpos⟩⟩
+        · simp only at h; subst h
+          rcases choiceLoop_fail _ _ _ _ _ _ _ _ _ hr with h1 | ⟨g, hg, e', l', hm⟩
+          · omega
+          · exact ⟨g, hg, by rw [hm]; exact Or.inr ⟨n, e', rfl, hpos⟩⟩
+      obtain ⟨g, hg, hpg⟩ := hopt
+      obtain ⟨f1, me1, h1, hsubf⟩ := firstChoice_sub _ opts fs me hfs g hg
+      exact (ih g i (wfL_mem hwf g hg) hpg f' env' f1 me1 hsub h1).mono hsubf
+    | seq items =>
+      rw [matchF_seq] at hp
+      rw [firstF_seq] at hfs
+      rw [wf_seq] at hwf
+      simp only [Bool.and_eq_true] at hwf
+      rw [mapOut_progress] at hp
+      exact seqLoop_progress c _ (fun g => firstF f' env' g) i items
+        (fun g' hg' r l hm fs' me' hf' =>
+          matchF_zero_width c henv f g' i r l (wfL_mem hwf.2 g' hg') hm f' env' fs' me' hsub hf')
+        (fun g' hg' hpg fs' me' hf' => ih g' i (wfL_mem hwf.2 g' hg') hpg f' env' fs' me' hsub hf')
+        hp fs me hfs
+    | rep0 g' =>
+      rw [matchF_rep0] at hp
+      rw [firstF_rep0] at hfs
+      rw [wf_rep0] at hwf
+      rw [mapOut_progress] at hp
+      have hp1 := repLoop_progress _ _ _ _ hp
+      cases hm : firstF f' env' g' with
+      | ok f1 me1 =>
+        rw [hm] at hfs
+        simp only [FRes.ok.injEq] at hfs
+        rw [← hfs.1]
+        exact ih g' i hwf hp1 f' env' f1 me1 hsub hm
+      | recur n => rw [hm] at hfs; simp at hfs
+      | fuel => rw [hm] at hfs; simp at hfs
+    | rep1 g' =>
+      rw [matchF_rep1] at hp
+      rw [firstF_rep1] at hfs
+      rw [wf_rep1] at hwf
+      rcases hm : matchF c f g' i with ⟨r1, l1⟩
+      rw [hm] at hp
+      cases r1 with
+      | ok n1 v1 =>
+        by_cases hn : n1 = 0
+        · subst hn
+          simp only at hp
+          have hnp := repLoop_zero_first (fun p => matchF c f g' p) c.N i v1 l1 hm f
+          simp only [Nat.add_zero] at hp
+          rcases hr : repLoop (fun p => matchF c f g' p) c.N f i with ⟨r2, l2⟩
+          rw [hr] at hp hnp
+          cases r2 with
+          | ok n2 rs2 =>
+            exfalso
+            apply hnp
+            rcases hp with ⟨n', v', h, hpos⟩ | ⟨n', e', h, _⟩
+            · simp only [Res.ok.injEq] at h
+              exact Or.inl ⟨n2, rs2, rfl, by omega⟩
+            · cases h
+          | fail n2 e2 =>
+            exfalso
+            apply hnp
+            rcases hp with ⟨n', v', h, _⟩ | ⟨n', e', h, hpos⟩
+            · cases h
+            · simp only [Res.fail.injEq] at h
+              exact Or.inr ⟨n2, e2, rfl, by omega⟩
+          | abort a => simp [Progress] at hp
+        · have : Progress (matchF c f g' i).1 := by rw [hm]; exact Or.inl ⟨n1, v1, rfl, by omega⟩
+          exact ih g' i hwf this f' env' fs me hsub hfs
+      | fail n1 e1 =>
+        have : Progress (matchF c f g' i).1 := by rw [hm]; exact hp
+        exact ih g' i hwf this f' env' fs me hsub hfs
+      | abort a => simp [Progress] at hp
+    | rep01 g' =>
+      rw [matchF_rep01] at hp
+      rw [firstF_rep01] at hfs
+      rw [wf_rep01] at hwf
+      rcases hm : matchF c f g' i with ⟨r1, l1⟩
+      rw [hm] at hp
+      cases hmf : firstF f' env' g' with
+      | ok f1 me1 =>
+        rw [hmf] at hfs
+        simp only [FRes.ok.injEq] at hfs
+        rw [← hfs.1]
+        cases r1 with
+        | ok n1 v1 =>
+          have : Progress (matchF c f g' i).1 := by rw [hm]; exact hp
+          exact ih g' i hwf this f' env' f1 me1 hsub hmf
+        | fail n1 e1 => simp [Progress] at hp
+        | abort a => simp [Progress] at hp
+      | recur n => rw [hmf] at hfs; simp at hfs
+      | fuel => rw [hmf] at hfs; simp at hfs
+    | adjoin a b =>
+      rw [matchF_adjoin] at hp
+      rw [firstF_adjoin] at hfs
+      rw [wf_adjoin] at hwf
+      simp only [Bool.and_eq_true] at hwf
+      cases hmf : firstF f' env' a with
+      | ok f1 me1 =>
+        rw [hmf] at hfs
+        simp only [FRes.ok.injEq] at hfs
+        rw [← hfs.1]
+        rcases hm : matchF c f a i with ⟨r1, l1⟩
+        rw [hm] at hp
+        cases r1 with
+        | ok n1 v1 =>
+          by_cases hn : n1 = 0
+          · simp [hn, Progress] at hp
+          · have : Progress (matchF c f a i).1 := by rw [hm]; exact Or.inl ⟨n1, v1, rfl, by omega⟩
+            exact ih a i hwf.1 this f' env' f1 me1 hsub hmf
+        | fail n1 e1 =>
+          have : Progress (matchF c f a i).1 := by rw [hm]; exact hp
+          exact ih a i hwf.1 this f' env' f1 me1 hsub hmf
+        | abort ab => simp [Progress] at hp
+      | recur n => rw [hmf] at hfs; simp at hfs
+      | fuel => rw [hmf] at hfs; simp at hfs
+    | var x =>
+      rw [matchF_var] at hp
+      rw [firstF_var] at hfs
+      cases hf' : env'.find x with
+      | none => simp [hf'] at hfs
+      | some body =>
+        have hf := hsub x body hf'
+        simp only [hf'] at hfs
+        simp only [hf] at hp
+        rcases hm : matchF c f body i with ⟨r1, l1⟩
+        rw [hm] at hp
+        have hpb : Progress (matchF c f body i).1 := by
+          rw [hm]
+          cases r1 with
+          | ok n1 v1 =>
+            rcases hp with ⟨n', v', h, hpos⟩ | ⟨n', e', h, _⟩
+            · simp only [Res.ok.injEq] at h
+              exact Or.inl ⟨n1, v1, rfl, by omega⟩
+            · cases h
+          | fail n1 e1 =>
+            rcases hp with ⟨n', v', h, _⟩ | ⟨n', e', h, hpos⟩
+            · simp only at h; split at h <;> cases h
+            · simp only at h
+              split at h <;> (simp only [Res.fail.injEq] at h; exact Or.inr ⟨n1, e1, rfl, by omega⟩)
+          | abort ab => simp [Progress] at hp
+        refine ih body i (henv x body hf) hpb f' _ fs me ?_ hfs
+        intro y b hy
+        exact hsub y b (SubEnv.filter_self env' x y b hy)
+
 /-! ## every well-formed matcher passes `First` once every rule does -/
 
 def FirstOk (env : Env) (f : Nat) (g : G) : Prop := ∃ fs me, firstF f env g = .ok fs me
